@@ -43,7 +43,10 @@ one has a 'stratum/...' hit in REQUIRED_HITS and a mutant /verif/mutants/C11-aud
        although it refused the sender / every recipient (the relay owes it an empty message); a next hop without
        8BITMIME and an 8-bit message (with / without binary_encoder); designed two-fault scripts in which every
        recipient has exactly one deviating reply (RCPT_k + LMTP end-of-data_j, two RCPT of different class, every
-       RCPT refused with differing classes) -- CLASS is judged per recipient there.
+       RCPT refused with differing classes) -- CLASS is judged per recipient there; a RCPT accepted with 251 / 252 /
+       299 / multi-line / segmented 2xx combined with every end-of-data outcome (2xx, 4xx, 5xx, close) for that and
+       the other recipients, 1-3 recipients, PIPELINING on/off, plus a clean second message on the reused
+       connection (reply-stream alignment).
  pipe  the rest of the exit-status range (sysexits, 126, 255); a program that exits without reading a message
        larger than a pipe buffer.
  http  other 2xx, 3xx (never followed, never a delivery), other 4xx/5xx; interim 100 Continue; https next hop
@@ -135,6 +138,8 @@ REQUIRED_HITS = ['smtp-attempt-judged', 'lmtp-attempt-judged', 'pipe-attempt-jud
                  'stratum/segmented-reply', 'stratum/tls-handshake-failure', 'stratum/tls-immediately',
                  'stratum/fault-inside-tls-session', 'stratum/empty-message-owed-after-refusal',
                  'stratum/8bit-message-for-7bit-next-hop', 'stratum/two-recipient-faults-attribution',
+                 'stratum/non-250-acceptance-x-end-of-data-outcome',
+                 'stratum/non-250-acceptance-then-second-message-on-the-connection',
                  'stratum/mx-fallback-sequence', 'stratum/mx-forced-destination',
                  'stratum/mx-resolver-answer-changes', 'stratum/https-session', 'stratum/https-handshake-failure',
                  'stratum/http-3xx-status', 'stratum/http-interim-100', 'stratum/pipe-stdin-not-read']
@@ -346,7 +351,7 @@ OUTCOMES = collections.OrderedDict([
 SLOW_OUTCOMES = ('stall', 'partial-silence', 'partial-ml-silence')
 # positive replies other than the plain one-line 250: every one of them is an acceptance
 OK_VARIANTS = collections.OrderedDict([
-    ('251', ['reply', '251']), ('299', ['reply', '299']),
+    ('251', ['reply', '251']), ('252', ['reply', '252']), ('299', ['reply', '299']),
     ('ml-250', ['reply-ml', '250', ['2.0.0 fine', 'second line', 'third line']]),
     ('split-ok', ['chunks', 3, ['ok']]),
 ])
@@ -659,6 +664,34 @@ def gen_smtp_audit():
                 cases.append(smtp_case(lmtp, pipelining, len(codes), 'rcpt-all-mixed', '+'.join(codes),
                                        [fault('rcpt%d' % i, c) for i, c in enumerate(codes)], [cl[c] for c in codes],
                                        oclass='attribution'))
+    # --- A7: a RCPT accepted with a positive reply other than one-line 250, combined with every end-of-data
+    #     outcome for that and for the other recipients (LMTP: one end-of-data reply per accepted recipient --
+    #     the reply stream must stay aligned, also for the next message on a reused connection)
+    eods = (('450', 'T'), ('550', 'P'), ('close', 'T'))
+    for pipelining in (True, False):
+        for n in (1, 2, 3):
+            for i in range(n):
+                for v in OK_VARIANTS:
+                    for reuse in (None, 'after-idle'):   # (after a failure only an idle client is picked again)
+                        if reuse and (v not in ('251', 'ml-250') or n == 1 and not pipelining):
+                            continue
+                        st, f0 = 'rcpt%d' % i, fault('rcpt%d' % i, v)
+                        # LMTP, every end-of-data reply positive
+                        exp = ['D'] * n
+                        cases.append(smtp_case(True, pipelining, n, st + '+eod-all-ok', v + '+2xx', [f0],
+                                               [exp, exp] if reuse else exp, oclass='okvar-eod/2xx', reuse=reuse))
+                        for j in range(n):          # LMTP, end-of-data reply j negative / missing
+                            for o, c in eods:
+                                exp = [c if r == j else 'D' if o != 'close' else '?' for r in range(n)]
+                                cases.append(smtp_case(True, pipelining, n, st + '+eod%d' % j, v + '+' + o,
+                                                       [f0, fault('eod%d' % j, o)],
+                                                       [exp, ['D'] * n] if reuse else exp,
+                                                       oclass='okvar-eod/' + OUTCOMES[o][0], reuse=reuse))
+                        for o, c in eods:           # SMTP, the one end-of-data reply negative / missing
+                            exp = [c] * n
+                            cases.append(smtp_case(False, pipelining, n, st + '+eod0', v + '+' + o,
+                                                   [f0, fault('eod0', o)], [exp, ['D'] * n] if reuse else exp,
+                                                   oclass='okvar-eod/' + OUTCOMES[o][0], reuse=reuse))
     return cases
 
 
@@ -1811,6 +1844,10 @@ def strata(case, obs):
             out.append('8bit-message-for-7bit-next-hop')
         if case.get('oclass') == 'attribution' and len(obs['fired']) >= 2:
             out.append('two-recipient-faults-attribution')
+        if str(case.get('oclass')).startswith('okvar-eod/') and len(obs['fired']) >= obs['nfaults']:
+            out.append('non-250-acceptance-x-end-of-data-outcome')
+            if case.get('reuse') and obs.get('reused'):
+                out.append('non-250-acceptance-then-second-message-on-the-connection')
     elif kind == 'mx':
         name = {'mx3-fallback': 'mx-fallback-sequence', 'force-mx': 'mx-forced-destination',
                 'dns-changes': 'mx-resolver-answer-changes'}.get(st)
